@@ -250,6 +250,15 @@ def canon_coords(text: str) -> str:
     return _COORD_RE.sub(rep, text)
 
 
+_SCRATCH_RE = re.compile(r",explored=[TF]|explored=[TF],|explored=[TF]")
+
+
+def strip_scratch(text: str) -> str:
+    """The serializer's scratch flag (`explored`) on its argument is an implementation detail no property speaks
+    about (C12 only asks that no chemically meaningful attribute is altered): it is not compared."""
+    return _SCRATCH_RE.sub("", text)
+
+
 _NODE_SPLIT = re.compile(r"\|")
 
 
